@@ -302,7 +302,18 @@ def r14_7(chk):
     chk.floor("R14.7", 1, "one writer call")
 
 
+def r14_8(chk):
+    chk.rule("R14.8", "a re-run records a repeated failure instead of raising: the writers' overwrite check (`unique_id in self` in append mode) answers for the one identifier being written -- base-class membership is one exact comparison, the directory store's override asks the base class one question under one normalised name, and _write checks the caller's identifier before rewriting it (the same obligations as R13.2 / R13.5, here because apply_to must never raise for a record)")
+    from . import c13
+
+    c13.base_membership(chk, "R14.8")
+    c13.override_membership(chk, "R14.8")
+    c13.check_identifier_form(chk, "R14.8")
+    chk.floor("R14.8", 3, "three membership obligations")
+
+
 def run(chk):
+    r14_8(chk)
     r14_7(chk)
     r14_6(chk)
     r14_1(chk)
